@@ -731,9 +731,75 @@ def judge_forms(sc, rec):
                         k, o, short(a[o]), short(b[o]), form), "forms")
 
 
+# ------------------------------------------------------------------ re-use across cube sets
+@st.composite
+def set_reuse_case_st(draw):
+    sc = draw(scenario_st().filter(lambda c: c["kind"].startswith("set-")))
+    sc["subset"] = draw(st.sampled_from(["first-only", "first+last", "last-alone"]))
+    sc["form"] = draw(st.sampled_from(["dict", "envelope"]))
+    return sc
+
+
+def _snap_parts(parts):
+    return [{json.dumps(o): _safe(lambda: read_output(part, o)) for o in outputs_for(part)}
+            for part in parts]
+
+
+def judge_set_reuse(sc, rec):
+    """Response objects that went through one cube set (inflation of numeric summaries,
+    augmentation) and are then used in ANOTHER set - the rows cube shared by the pages of a
+    tab book - or on their own give what pristine copies give."""
+    rec.event("kind=" + sc["kind"])
+    rec.event("subset=" + sc["subset"])
+    resps = encode_all(sc)
+    shared = [copy.deepcopy(r) for r in resps]
+    wrap = (lambda r: {"value": r}) if sc["form"] == "envelope" else (lambda r: r)
+    txs = _reference_transforms(sc)
+    first = lib.CubeSet([wrap(r) for r in shared], copy.deepcopy(txs), sc["population"],
+                        sc["mask_size"])
+    for ps in first.partition_sets:       # evaluate the full set first
+        for part in ps:
+            _safe(lambda: part.counts)
+    idx = {"first-only": [0], "first+last": [0, len(resps) - 1],
+           "last-alone": [len(resps) - 1]}[sc["subset"]]
+    rec.nontrivial(len(resps) > 2 or sc["subset"] != "first+last")
+
+    def build(objs):
+        sub_tx = [copy.deepcopy(txs[i]) for i in idx]
+        if sc["subset"] == "last-alone":
+            return _safe(lambda: lib.Cube(wrap(objs[idx[0]]), transforms=sub_tx[0],
+                                          population=sc["population"],
+                                          mask_size=sc["mask_size"]).partitions)
+        cs = lib.CubeSet([wrap(objs[i]) for i in idx], sub_tx, sc["population"],
+                         sc["mask_size"])
+        return _safe(lambda: [p for ps in cs.partition_sets for p in ps])
+
+    got = build(shared)
+    want = build([copy.deepcopy(r) for r in resps])
+    rec.compared()
+    if isinstance(got, Raised) or isinstance(want, Raised):
+        if not deep_equal(got, want):
+            rec.violation("partitions of the second use: %s, pristine copies give %s" % (
+                short(got), short(want)), "set-reuse-partitions")
+        return
+    if [type(p).__name__ for p in got] != [type(p).__name__ for p in want]:
+        rec.violation("after the responses went through a cube set, their re-use (%s) yields "
+                      "partitions %r; pristine copies yield %r" % (
+                          sc["subset"], [type(p).__name__ for p in got],
+                          [type(p).__name__ for p in want]), "set-reuse-shape")
+        return
+    for k, (a, b) in enumerate(zip(_snap_parts(got), _snap_parts(want))):
+        for o in b:
+            rec.compared()
+            if not deep_equal(a.get(o), b[o]):
+                rec.violation("re-use (%s) partition %d %s: %s, pristine copies give %s" % (
+                    sc["subset"], k, o, short(a.get(o)), short(b[o])), "set-reuse")
+
+
 SUBCHECKS = [
     SubCheck("histories", None, replay_history, quick=640, thorough=12000, kind="custom",
              custom_fn=run_machine),
     SubCheck("forms", forms_case_st(), judge_forms, quick=480, thorough=6000),
     SubCheck("threads", forms_case_st(), judge_threads, quick=64, thorough=1600),
+    SubCheck("set-reuse", set_reuse_case_st(), judge_set_reuse, quick=300, thorough=4000),
 ]
